@@ -111,7 +111,8 @@ Definition sounding (r : hnote) : bool := negb (hn_hs r =? 0) || negb (name_empt
 Definition nsounding (m : hmap) (t : Z) : nat := length (filter sounding (at_time t (all_notes m))).
 Definition nnotes (m : hmap) (t : Z) : nat := length (at_time t (all_notes m)).
 
-Definition atoms_at (t : Z) (l : list atom) : list atom := filter (fun a => let '(t', _, _, _) := a in t' =? t) l.
+Definition atom_time (a : atom) : Z := fst (fst (fst a)).
+Definition atoms_at (t : Z) (l : list atom) : list atom := filter (fun a => atom_time a =? t) l.
 
 (* per time: as many notes sound as the sounds need, or all of them; when everything fits, everything
    (every clap, finish, whistle, named sample) is on the notes *)
